@@ -368,7 +368,7 @@ func TestC13(t *testing.T) {
 			c["src"] = "tlc"
 			yield(c)
 		}
-		n := vt.Pick(40, 600)
+		n := vt.Pick(40, 400)
 		for i := 0; i < n; i++ {
 			yield(randomGroup(rnd, i))
 		}
